@@ -1,5 +1,5 @@
 -------------------------------- MODULE Stream --------------------------------
-(* DRAFT (round 0).  The abstract byte stream that recorded API histories of a may
+(* The abstract byte stream that recorded API histories of a may
    TcpStream / UnixStream pair are validated against (C17): writes append a prefix of what the
    caller offered (partial writes), the kernel buffer is bounded, reads remove a non-empty prefix
    of what is buffered (or 0 at EOF only), close of the writer makes EOF visible after the
